@@ -415,6 +415,73 @@ def run_race(devs, budgets, active=False):
     return res
 
 
+def run_loss_race(devs, budgets, first="select"):
+    """The peer's request is still being handled by the dispatcher thread when the peer closes the connection: the transition the request
+    asks for and the disconnect transition are requested from two threads.  Whatever the order, the closed connection ends in NOT CONNECTED
+    and the next connection starts in NOT SELECTED and can be selected."""
+    box = {}
+
+    def driver(s):
+        s.frozen = True
+        ep = hh.Endpoint(active=False, t6=T6)
+        conn = ep.conn
+        ep.protocol.enable()
+        conn.peer_connect()
+        s.settle()
+        if first in ("deselect", "data", "linktest"):
+            conn.peer_send(e37.control(e37.SELECT_REQ, 0x5000))
+            s.settle()
+        ep.pump()
+        s.frozen = False
+        if first == "select":
+            conn.peer_send(e37.control(e37.SELECT_REQ, 0x5001))
+        elif first == "deselect":
+            conn.peer_send(e37.control(e37.DESELECT_REQ, 0x5001))
+        elif first == "linktest":
+            conn.peer_send(e37.control(e37.LINKTEST_REQ, 0x5001))
+        else:
+            conn.peer_send(e37.data(1, 1, True, 0x5001))
+        conn.peer_close()
+        s.settle()
+        box["state_closed"] = ep.state()
+        box["connected_closed"] = bool(ep.protocol._connection.connected) if hasattr(ep.protocol._connection, "connected") else None
+        s.frozen = True
+        ep.pump()
+        ep.reset_wire()
+        n0 = len(ep.frames)
+        conn.peer_connect()
+        s.settle()
+        box["state_next"] = ep.state()
+        conn.peer_send(e37.control(e37.SELECT_REQ, 0x5002))
+        s.settle()
+        ep.pump()
+        box["next_frames"] = list(ep.frames[n0:])
+        box["state_selected"] = ep.state()
+        box["errors"] = list(conn.errors)
+
+    sched = vrt.run(driver, devs, budgets, max_steps=80000, max_time=1000.0)
+    res = {"trace": sched.trace, "v": []}
+    if sched.harness_failure or sched.driver_exception:
+        res["harness"] = (sched.harness_failure or sched.driver_exception)[-1000:]
+        res["obs"] = None
+        return res
+    res["obs"] = {k: box.get(k) for k in ("state_closed", "state_next", "state_selected")}
+    res["obs"]["outcome"] = sched.outcome
+    if sched.outcome != "done":
+        res["v"].append((f"C05|loss-race|{first}|execution-{sched.outcome}", {"info": sched.deadlock_info}))
+    else:
+        if box.get("state_closed") != "NOT_CONNECTED":
+            res["v"].append((f"C05|loss-race|{first}|closed-connection-but-state={box.get('state_closed')}", {"obs": res["obs"]}))
+        if box.get("state_next") != "CONNECTED_NOT_SELECTED":
+            res["v"].append((f"C05|loss-race|{first}|next-connection-starts-in={box.get('state_next')}", {"obs": res["obs"], "errors": box.get("errors")}))
+        n_rsp = sum(1 for f in box.get("next_frames", []) if f["stype"] == e37.SELECT_RSP and f["system"] == 0x5002)
+        if n_rsp != 1 or box.get("state_selected") != "CONNECTED_SELECTED":
+            res["v"].append((f"C05|loss-race|{first}|next-connection-select-rsp={n_rsp}|state={box.get('state_selected')}", {"obs": res["obs"]}))
+    for sig, d in res["v"]:
+        d["case"] = {"part": "loss-race", "first": first}
+    return res
+
+
 def run(ctx):
     ctx.assumptions += [
         "reference session model = DESIGN.md Appendix C (E37 NOT CONNECTED / NOT SELECTED / SELECTED); the status byte of responses is not constrained",
@@ -437,6 +504,14 @@ def run(ctx):
         tot_states += st["distinct_outcomes"]
         if st["levels_completed"] < sum(budgets.values()):
             ctx.exhaustive = False
+    for first in ("select", "deselect", "data", "linktest"):
+        budgets = {"sched": 3 if ctx.thorough else 2}
+        st = explore.explore(ctx, run_loss_race, budgets, f"c05-loss-race-{first}", opts={"first": first})
+        parts.append({"part": "request-vs-link-loss", "first": first, "budgets": budgets, **st})
+        tot_trans += st["executions"]
+        tot_states += st["distinct_outcomes"]
+        if st["levels_completed"] < sum(budgets.values()):
+            ctx.exhaustive = False
     for active in (False, True):
         st = hbfs.search(ctx, run_history, ALPHABET, f"c05-{'active' if active else 'passive'}", d0, d1, opts={"active": active})
         parts.append({"part": "history-bfs", "active": active, **st})
@@ -455,7 +530,12 @@ def run(ctx):
 
 def replay(ctx, detail):
     case = detail["case"]
-    if case.get("part") == "race":
+    if case.get("part") == "loss-race":
+        hh.trace_region(REGION_B)
+        devs = {int(k): v for k, v in case.get("devs", {}).items()}
+        r = run_loss_race(devs, case["budgets"], first=case["first"])
+        print("replayed:", r["obs"])
+    elif case.get("part") == "race":
         hh.trace_region(REGION_B)
         devs = {int(k): v for k, v in case.get("devs", {}).items()}
         r = run_race(devs, case["budgets"], active=case["active"])
